@@ -379,6 +379,29 @@ pub fn spaces(tier: Tier) -> Vec<Space> {
             eval_tx_bytes(&b, &e, acc, case, &d);
         }));
     }
+    // S1b: single-bit and all-ones-below patterns in every integer field
+    {
+        let e = env.clone();
+        v.push(Space::new("field-bit-patterns", 5 * 66 * 2, move |case, acc| {
+            let c = coords(case.idx, &[5, 66, 2]);
+            let k = c[1] as u32;
+            let pow = |bits: u32| -> u64 { if k >= bits { u64::MAX >> (64 - bits) } else { 1u64 << k } };
+            let v64 = if c[2] == 0 { pow(64) } else { pow(64).wrapping_sub(1) };
+            let v32 = (if c[2] == 0 { pow(32) } else { pow(32).wrapping_sub(1) }) as u32;
+            let mut tx = RTx { version: 1, locktime: 0, inputs: vec![simple_in(0), simple_in(1)], outputs: vec![simple_out(0), simple_out(1)] };
+            match c[0] {
+                0 => tx.version = v32,
+                1 => tx.locktime = v32,
+                2 => tx.inputs[1].sequence = v32,
+                3 => tx.inputs[0].vout = v32,
+                _ => tx.outputs[1].value = v64,
+            }
+            let b = tx.encode();
+            let fname = ["version", "locktime", "sequence", "vout", "value"][c[0] as usize];
+            let d = || json!({"field": fname, "bit": k, "minus_one": c[2] == 1});
+            eval_tx_bytes(&b, &e, acc, case, &d);
+        }));
+    }
     // S2: input/output counts across the compact-size boundaries (full square)
     {
         let e = env.clone();
